@@ -11,7 +11,19 @@ pub fn read_ndjson(path: &str) -> Vec<Value> {
         .lines()
         .map(|l| l.unwrap())
         .filter(|l| !l.trim().is_empty())
-        .map(|l| serde_json::from_str(&l).unwrap_or_else(|e| panic!("json {e}: {l}")))
+        .filter_map(|l| {
+            if l.starts_with("<<\"") {
+                // a line PrintT'ed by TLC: <<"TAG", "escaped json">>
+                let a = l.find("\", \"")? + 3;
+                let inner = &l[a..l.len() - 2];
+                let unesc: String = serde_json::from_str(inner).ok()?;
+                Some(serde_json::from_str(&unesc).unwrap_or_else(|e| panic!("json {e}: {unesc}")))
+            } else if l.starts_with('{') || l.starts_with('[') {
+                Some(serde_json::from_str(&l).unwrap_or_else(|e| panic!("json {e}: {l}")))
+            } else {
+                None // TLC chatter
+            }
+        })
         .collect()
 }
 
